@@ -88,7 +88,7 @@ def install(I: Interp):
         if isinstance(idx, Mask):
             return Arr(v.num, v.sel + (idx.tag,), v.kind, v.index)
         if isinstance(idx, Num):
-            return Num.atom(f"{v.num.canon()}[{idx.canon()}]{'@' + '/'.join(v.sel) if v.sel else ''}")
+            return Num.atom(f"{v.num.canon()}[{idx.canon()}]{'@' + '/'.join(map(str, v.sel)) if v.sel else ''}")
         if isinstance(idx, slice) or (isinstance(idx, tuple) and idx and idx[0] == "slice"):
             return Arr(v.num, v.sel + (f"slice{idx}",), v.kind, v.index)
         I.err(n, f"Arr[{idx!r}]")
@@ -198,3 +198,86 @@ def coolprop_summaries(I: Interp, backend_ok=True):
     for pre in ("pygaps.utilities.coolprop_utilities.CP", "CoolProp"):
         E[f"{pre}.CoolProp.PropsSI"] = propssi
         E[f"{pre}.PropsSI"] = propssi
+
+
+# ---------------------------------------------------------------------------------------------------------
+# small symbolic vectors (numpy arrays of fixed small length whose elements are symbolic numbers)
+
+class Vec:
+    def __init__(self, items, tag=None):
+        self.items = list(items)
+        self.tag = tag
+
+    def __repr__(self):
+        return f"<Vec {[x.canon() if isinstance(x, Num) else x for x in self.items]}>"
+
+    def __deepcopy__(self, memo):
+        return Vec(self.items, self.tag)
+
+
+def install_vec(I: Interp):
+    """numpy summaries for Vec; comparisons between symbolic elements fork the path (finite set of orderings)"""
+    import ast as _ast
+    E, M, A = I.ext, I.libmeth, I.libattr
+
+    def vec_of(v):
+        return v if isinstance(v, Vec) else None
+    E["numpy.asarray"] = (lambda old: lambda I, a, k, n: a[0] if isinstance(a[0], Vec) else Vec(a[0]) if isinstance(a[0], list) and all(isinstance(x, Num) for x in a[0]) else old(I, a, k, n))(E["numpy.asarray"])
+    E["numpy.array"] = E["numpy.asarray"]
+    A[("Vec", "size")] = lambda I, v, n: Num.const(len(v.items))
+    A[("Vec", "shape")] = lambda I, v, n: (Num.const(len(v.items)),)
+    M[("Vec", "__iter__")] = lambda I, v, a, k, n: list(v.items)
+    M[("Vec", "max")] = lambda I, v, a, k, n: Num.atom(f"max({I.describe(v)})")
+    M[("Vec", "min")] = lambda I, v, a, k, n: Num.atom(f"min({I.describe(v)})")
+    M[("Vec", "any")] = lambda I, v, a, k, n: any(I.truth(x, n) for x in v.items)
+    M[("Vec", "all")] = lambda I, v, a, k, n: all(I.truth(x, n) for x in v.items)
+    M[("Vec", "item")] = lambda I, v, a, k, n: v.items[0]
+    M[("Vec", "tolist")] = lambda I, v, a, k, n: list(v.items)
+
+    def vgetitem(I, v, a, k, n):
+        idx = a[0]
+        if isinstance(idx, slice):
+            return Vec(v.items[idx])
+        if isinstance(idx, Num) and idx.is_const():
+            i = int(idx.value())
+            if not -len(v.items) <= i < len(v.items):
+                raise I.fault("IndexError", n, "index out of bounds")
+            return v.items[i]
+        if isinstance(idx, tuple) and idx and idx[0] == "slice":
+            return Arr(Num.atom(f"{I.describe(v)}[{I.describe(idx[1])}:{I.describe(idx[2])}]"), (("slice", I.describe(idx[1]), I.describe(idx[2])),), "array")
+        if isinstance(idx, Num):
+            return Num.atom(f"{I.describe(v)}[{idx.canon()}]")
+        if isinstance(idx, Vec):
+            return Vec([vgetitem(I, v, [j], {}, n) for j in idx.items])
+        I.err(n, f"Vec[{idx!r}]")
+    M[("Vec", "__getitem__")] = vgetitem
+    I.vec_len = lambda v: Num.const(len(v.items))
+
+    def npdiff(I, a, k, n):
+        v = a[0]
+        return Vec([I.binop(_ast.Sub(), v.items[i + 1], v.items[i], n) for i in range(len(v.items) - 1)])
+    E["numpy.diff"] = npdiff
+
+    def flatnonzero(I, a, k, n):
+        v = a[0]
+        return Vec([Num.const(i) for i, x in enumerate(v.items) if I.truth(x, n, label=f"nonzero[{i}]")])
+    E["numpy.flatnonzero"] = flatnonzero
+    E["numpy.nonzero"] = lambda I, a, k, n: (flatnonzero(I, a, k, n),)
+    E["numpy.argmax"] = lambda I, a, k, n: Num.atom(f"argmax({I.describe(a[0])})")
+    E["numpy.searchsorted"] = lambda I, a, k, n: Num.atom(f"searchsorted({I.describe(a[0])},{I.describe(a[1])})")
+    E["numpy.isclose"] = lambda I, a, k, n: UnknownBool(f"isclose({I.describe(a[0])},{I.describe(a[1])})")
+    E["scipy.stats.linregress"] = lambda I, a, k, n: tuple(Num.atom(f"linregress.{nm}({I.describe(a[0])},{I.describe(a[1])})")
+                                                             for nm in ("slope", "intercept", "corr", "p", "stderr"))
+    I.vec_binop = True
+
+
+def vec_binop(I, op, a, b, node):
+    """elementwise arithmetic / comparison of Vec with Vec or scalar"""
+    import ast as _ast
+    va, vb = isinstance(a, Vec), isinstance(b, Vec)
+    n = len(a.items) if va else len(b.items)
+    if va and vb and len(a.items) != len(b.items):
+        raise I.fault("ValueError", node, "operands could not be broadcast together")
+    xs = a.items if va else [a] * n
+    ys = b.items if vb else [b] * n
+    return Vec([I.binop(op, x, y, node) for x, y in zip(xs, ys)])
